@@ -93,6 +93,11 @@ CLAIMED = {
         text="model-based testing in the spec->implementation direction: every sequence of make(small/large)/copy/move/reset/swap/invoke of length 3 (thorough: 4) over 2 slots plus thousands of TLC-simulated length-10 sequences over 3 slots is executed on function, unique_function, any_sender and unique_any_sender, comparing after every step emptiness of each slot, the invocation result or defined empty-error, independence of copies (per-object call counters) and the number of live contained objects (exactly-once destruction, inline and heap storage)",
         note="sequential behaviour only (wrappers are not shared between threads); equivalence of erased and unerased pipelines is covered with C03",
         design="5/C18"),
+    "C20": dict(
+        technique="TLA+ fine-grained spec MpiPollImpl (parallel request/callback vectors, chunked MPI_Testsome, compaction) and ActivityImpl model-checked by TLC + abstract spec MpiAbs with TLC trace validation of post/send/signal/wait histories from the real MPI adaptor",
+        text="TLC proves on MpiPollImpl that a callback runs at most once and only for a request MPI reported complete, and that every request is eventually signalled, for all interleavings of adds, completions, chunked polls and compaction (dropping the chunk base breaks it); real single-rank histories across all completion modes and 1-64 outstanding receives (below, at and above the 32-request polling chunk) must be behaviours of MpiAbs: every receiver signalled exactly once, only after its message was sent, with the full payload visible, and pika::wait() returning only after all requests posted before it were signalled",
+        note="one MPI implementation and one rank; MPI error paths are not exercised; sequential consistency",
+        design="5/C20"),
 }
 
 NOT_YET = {}
